@@ -245,6 +245,19 @@ func (in *Interp) initExterns() {
 		}
 		return Str{s}
 	})
+	sx("OneOf", func(in *Interp, _ *frame, _ *ssa.Function, a []value) value {
+		v := in.newInput(strArg(a[0]), 8, "uint8")
+		set, ok := a[1].(Str).Concrete()
+		if !ok || set == "" {
+			in.unsupported("symx.OneOf needs a concrete non-empty alphabet")
+		}
+		c := ts.False
+		for i := 0; i < len(set); i++ {
+			c = ts.Or(c, ts.Eq(v, ts.Const(8, uint64(set[i]))))
+		}
+		in.assume(c)
+		return v
+	})
 	sx("Assume", func(in *Interp, _ *frame, _ *ssa.Function, a []value) value {
 		in.assume(a[0].(*Term))
 		return nil
@@ -607,6 +620,8 @@ func (in *Interp) initExterns() {
 	}
 	E["(*strings.Builder).copyCheck"] = func(in *Interp, _ *frame, _ *ssa.Function, a []value) value { return nil }
 	E["strings.Clone"] = func(in *Interp, _ *frame, _ *ssa.Function, a []value) value { return a[0] }
+	E["internal/stringslite.Clone"] = E["strings.Clone"]
+	E["strconv.cloneString"] = E["strings.Clone"]
 
 	// ---------------- math/bits
 	E["math/bits.TrailingZeros64"] = func(in *Interp, _ *frame, _ *ssa.Function, a []value) value {
